@@ -222,6 +222,9 @@ class FetchCommand(CommandSelect):
             params_copy = params.copy(expected=[FetchAttribute])
             attr_list_p, buf = List.parse(buf, params_copy)
             attr_list = attr_list_p.get_as(FetchAttribute)
+            if not attr_list:
+                # the response would be '* n FETCH ()', which is not valid
+                raise NotParseable(buf)
         if params.uid:
             attr_list = list(attr_list) + [FetchAttribute(b'UID')]
         options, buf = ExtensionOptions.parse(buf, params)
